@@ -361,8 +361,8 @@ def r_footer(chk, P, tier):
     st_new = [bi for bi, t, cs in calls if any(c.endswith("parser::State::<'a>::new") for c in cs)]
     utf8 = [bi for bi, t, cs in calls if any(c.endswith("str::from_utf8") or c.endswith("str::converts::from_utf8") for c in cs)]
     tznew = [bi for bi, t, cs in calls if any(c.endswith("timezone::TimeZone::new") for c in cs)]
-    if len(st_new) < 2 or not utf8 or not tznew:
-        raise AnchorLost("parse(): State::new x%d, from_utf8 x%d, TimeZone::new x%d" % (len(st_new), len(utf8), len(tznew)))
+    if len(st_new) < 2 or not tznew:
+        raise AnchorLost("parse(): State::new x%d, TimeZone::new x%d" % (len(st_new), len(tznew)))
     # the second (64-bit) State::new is the one reached from the first
     second = [b for b in st_new if any(a != b and cfg.reaches_without(a, {b}, set()) for a in st_new)]
     if not second:
